@@ -28,6 +28,18 @@ CHECKS = {
        "Block shape (_auto_block_shape) is read from the code and passed to the model (theorems hold for every s).",
   tech="Lean 4 proof (induction/omega over integer grids) + differential correspondence run", ref='7 C06'),
 
+ 'C07': dict(
+  text="Proof (Lean 4) over exact rationals, for every block, mask, kernel, model, R2/in-paint setting and positive factors a, c: "
+       "fit(a src, c ref) = (c/a gain, c offset, same R2) at every pixel (fit_scale, and its src-only / ref-only corollaries), "
+       "masks and R2 unchanged, apply gives c times the corrected value, resampling (normalised weighted mean) is homogeneous, the "
+       "corrected pixel through the up-sampled parameters scales accordingly, variance scales with the square (9 theorems). Tied to "
+       "the code by triples of real fusions (base, source x a, reference x c): bit-identical corrected/parameter images and masks "
+       "after the exact rescale for power-of-two factors (all models, in-painting on/off, 1..16 blocks, both grids), relative "
+       "tolerance for general factors; and by the real KernelModel.fit on scaled blocks against the model of the unscaled block.",
+  note="Hypotheses of the law that are measured, not proved: rasterio.fill.fillnodata commutes with multiplication by c; numpy "
+       "std / percentile scale (variance_scale is proved; the percentile is not); GDAL warp is a normalised weighted mean. Integer "
+       "output dtypes are excluded (rounding is not homogeneous).",
+  tech="Lean 4 proof (field algebra over Q, case analysis on Option/ite) + bit-identity differential runs", ref='7 C07'),
  'C16': dict(
   text="Proof (Lean 4): the repaired covers_bounds predicate accepts iff the source footprint is contained in the reference "
        "footprint on each axis (covers_iff_contains), overhang on any side by any amount is rejected, the same grid is accepted, "
